@@ -7,7 +7,7 @@ EXTENDS Pipeline
 
 CONSTANTS MaxEvs, Templates, FTids, FProcs, FClasses, FSubs
 
-FProcAll == {[kind |-> "none"], [kind |-> "pid", pid |-> 5], [kind |-> "name", name |-> "p"]}
+FProcAll == {[kind |-> "none"], [kind |-> "pid", pid |-> 5], [kind |-> "name", name |-> "p"], [kind |-> "both", pid |-> 5, name |-> "5"]}
 FClassAll == {<<>>, <<4>>, <<7>>, <<3, 4>>, <<1>>}
 FClassSmall == {<<>>, <<4>>, <<7>>}
 FProcNone == {[kind |-> "none"]}
